@@ -72,7 +72,9 @@ func generate(dir string, p *synth.Program, sets bool) (files map[string]string,
 			fmt.Fprintf(&b, "\t\t\t%q: %s,\n", fd.Name.Name, fd.Name.Name)
 			nfuncs++
 		case fd.Recv != nil && len(fd.Recv.List) == 1:
-			if id, ok := fd.Recv.List[0].Type.(*ast.Ident); ok && tableNames[id.Name] && ast.IsExported(fd.Name.Name) {
+			// methods of the table structs (Insert, Update, Delete) and of
+			// their collection types <T>s (IDs, By<F>, <F>s)
+			if id, ok := fd.Recv.List[0].Type.(*ast.Ident); ok && (tableNames[id.Name] || tableNames[strings.TrimSuffix(id.Name, "s")]) && ast.IsExported(fd.Name.Name) {
 				fmt.Fprintf(&b, "\t\t\t%q: %s.%s,\n", id.Name+"."+fd.Name.Name, id.Name, fd.Name.Name)
 				nfuncs++
 			}
